@@ -16,6 +16,8 @@ use std::sync::{Arc, Mutex};
 
 #[derive(Clone, Debug, serde::Serialize, serde::Deserialize, Default)]
 pub struct CrashPlan {
+    #[serde(default)]
+    pub engine: String,
     /// "sample" (quick) or "all" (thorough: every journal prefix)
     pub positions: String,
     pub sample_positions: usize,
@@ -25,6 +27,11 @@ pub struct CrashPlan {
     pub explicit: Vec<(usize, String, u64)>,
     /// probability (percent) of a second crash during the recovery of an image
     pub nested_percent: u64,
+}
+
+thread_local! {
+    static FILES_NOTE: std::cell::RefCell<Option<String>> = const { std::cell::RefCell::new(None) };
+    static TMP_LEFTOVERS: std::cell::Cell<u64> = const { std::cell::Cell::new(0) };
 }
 
 struct OpWindow {
@@ -74,6 +81,28 @@ fn open_and_dump(root: &Path, cfg: &CfgSpec) -> Result<View, String> {
     if std::env::var("LSMSIM_PROF").is_ok() {
         eprintln!("PROF dump {:?}", t0.elapsed());
     }
+    // C20: after a reopen the directory holds exactly what the current version names
+    {
+        let a = crate::audit::audit_tree(&tree);
+        let ls = crate::audit::list_dir(root);
+        let cur_t: std::collections::BTreeSet<String> =
+            a.tables.iter().map(|t| t.id.to_string()).collect();
+        let cur_b: std::collections::BTreeSet<String> =
+            a.blobs.iter().map(|b| b.id.to_string()).collect();
+        let cur_v: std::collections::BTreeSet<String> =
+            [format!("v{}", a.version_id)].into_iter().collect();
+        if ls.tables != cur_t || ls.blobs != cur_b || ls.versions != cur_v {
+            FILES_NOTE.with(|n| {
+                *n.borrow_mut() = Some(format!(
+                    "after recovery the directory holds tables {:?} blobs {:?} versions {:?} but the recovered version {} names tables {:?} blobs {:?}",
+                    ls.tables, ls.blobs, ls.versions, a.version_id, cur_t, cur_b
+                ));
+            });
+        }
+        if !ls.other.is_empty() {
+            TMP_LEFTOVERS.with(|c| c.set(c.get() + 1));
+        }
+    }
     // the recovered tree must be usable: write, flush, read back
     let probe_seq = tree.get_highest_seqno().map_or(0, |s| s + 1);
     tree.insert("zz-crash-probe", "probe", probe_seq);
@@ -106,6 +135,7 @@ fn check_image(
     let _ = std::fs::remove_dir_all(dir);
     let root = dir.join("t");
     simfs::materialize(img, root.to_str().unwrap());
+    FILES_NOTE.with(|n| *n.borrow_mut() = None);
     let verdict = std::panic::catch_unwind(|| -> Result<(), String> {
         let rootstr = root.to_str().unwrap().to_string();
         if nested.is_some() {
@@ -125,6 +155,9 @@ fn check_image(
                     .collect::<Vec<_>>()
                     .join(" | ")
             ));
+        }
+        if let Some(note) = FILES_NOTE.with(|n| n.borrow_mut().take()) {
+            return Err(format!("files|{note}"));
         }
         if let Some(seed) = nested {
             // second crash during / after that recovery (the probe write is part of it)
@@ -149,6 +182,9 @@ fn check_image(
                         simfs::describe(&j.events[k - 1].ev)
                     )
                 })?;
+                if let Some(note) = FILES_NOTE.with(|n| n.borrow_mut().take()) {
+                    return Err(format!("files|(after a second crash during recovery) {note}"));
+                }
                 // the probe key may or may not have survived the second crash
                 let mut g2 = got2.clone();
                 g2.remove(b"zz-crash-probe".as_slice());
@@ -187,6 +223,7 @@ fn mode_name(m: CrashMode) -> &'static str {
 pub fn default_plan(tier: &str) -> CrashPlan {
     if tier == "thorough" {
         CrashPlan {
+            engine: "crash".into(),
             positions: "all".into(),
             sample_positions: 0,
             random_modes: 4,
@@ -195,6 +232,7 @@ pub fn default_plan(tier: &str) -> CrashPlan {
         }
     } else {
         CrashPlan {
+            engine: "crash".into(),
             positions: "sample".into(),
             sample_positions: 10,
             random_modes: 2,
@@ -427,9 +465,16 @@ pub fn run_crash(prop: &PropDef, spec: &RunSpec, workdir: &Path, index: u64) -> 
         if code != 0 {
             let (cls, text) = msg.split_once('|').unwrap_or(("recovery", msg.as_str()));
             let detail = classify_image(&img, &journal, k, &info);
+            if cls == "files" && !prop.decisive.contains(&"files") {
+                // the reclamation clause belongs to C20: observe, keep going
+                stats.inc("obs:files/after-crash-recovery (files)");
+                continue;
+            }
             result = Err(Violation {
-                tag: "crash".into(),
-                class: if cls.starts_with("unopenable") {
+                tag: if cls == "files" { "files".into() } else { "crash".into() },
+                class: if cls == "files" {
+                    "files/after-crash-recovery".to_string()
+                } else if cls.starts_with("unopenable") {
                     format!("crash/{cls}")
                 } else {
                     format!("crash/{cls}/{detail}")
@@ -450,6 +495,7 @@ pub fn run_crash(prop: &PropDef, spec: &RunSpec, workdir: &Path, index: u64) -> 
             break;
         }
     }
+    stats.add("probe_leftover_tmp_files", TMP_LEFTOVERS.with(std::cell::Cell::get));
     stats.states.extend(image_hashes.iter().copied());
     let mut res = finish_result(prop, spec, index, &stats, result.clone(), evaluations.max(1));
     if let (Err(_), Some(s)) = (&result, res.spec.as_mut()) {
